@@ -18,6 +18,34 @@ static inline int env_sscanf(const char* input, const char* format, unsigned* a,
   *b = (unsigned)h2;
   return 2;
 }
+/* ---- models for RequestImpl::split: istringstream + getline(delim), vector<string> ---- */
+#define ACAP 6
+struct svec { vstr e[ACAP]; size_t n; };
+struct sstream { vstr s; size_t pos; };
+static inline vstr vstr_new(void) { vstr r; r.n = 0; for (size_t i = 0; i <= VSTR_CAP; i++) r.d[i] = 0; return r; }
+static inline struct sstream ss_open(const vstr* s) { struct sstream r; r.s = *s; r.pos = 0; return r; }
+/* std::getline(stream, token, delim): fails when nothing is left; else extracts up to (and discards) the delimiter or up to the end */
+static inline _Bool ss_getline(struct sstream* st, vstr* tok, char delim) {
+  if (st->pos >= st->s.n) return 0;
+  vstr t = vstr_new(); _Bool done = 0; size_t p = st->pos;
+  for (size_t i = 0; i < VSTR_CAP; i++) {
+    if (!done && i >= st->pos && i < st->s.n) {
+      if (st->s.d[i] == delim) { done = 1; p = i + 1; } else { t.d[t.n] = st->s.d[i]; t.n = t.n + 1; p = i + 1; }
+    }
+  }
+  st->pos = p; *tok = t;
+  return 1;
+}
+static inline void svec_pop_back(struct svec* v) { __CPROVER_assert(v->n > 0, "[C20] pop_back() on a non-empty vector"); if (v->n > 0) v->n = v->n - 1; }
+static inline void svec_push_back(struct svec* v, const vstr* s) { __CPROVER_assert(v->n < ACAP, "model capacity: more arguments than ACAP"); if (v->n < ACAP) { v->e[v->n] = *s; v->n = v->n + 1; } }
+static inline size_t svec_size(const struct svec* v) { return v->n; }
+static inline vstr vstr_cat3(const vstr* a, char c, const vstr* b) {
+  vstr r = *a;
+  __CPROVER_assert(a->n + 1 + b->n <= VSTR_CAP, "model capacity: concatenation beyond VSTR_CAP");
+  if (r.n < VSTR_CAP) { r.d[r.n] = c; r.n = r.n + 1; r.d[r.n] = 0; }
+  vstr_append(&r, b);
+  return r;
+}
 #include "gen_protos.h"
 #include "gen_funcs.inc"
 
@@ -54,4 +82,52 @@ void h_http_decode(void) {
   __CPROVER_assert(__CPROVER_forall { size_t j; (j < VSTR_CAP) ==> (j < expect.n ==> rq.m_request.d[j] == expect.d[j]) }, "[C18] every percent escape of the URI is decoded exactly once (content)");
   if (g_sscanf_calls >= 2) { CANARY("two escapes"); }
   if (expect.n + 4 <= uri.n) { CANARY("two escapes decoded"); }
+}
+
+/* ---- TCP command line: reference tokenizer at character level (from the property statement): blanks outside quotes separate (repeated
+   blanks once); a token starting with a quote character q extends to the first following q that ends a token (is followed by a blank or
+   the end of the line); the quotes themselves are removed ---- */
+static inline _Bool vstr_same(const vstr* a, const vstr* b) {
+  if (a->n != b->n) return 0;
+  _Bool eq = 1;
+  for (size_t i = 0; i < VSTR_CAP; i++) { if (i < a->n && a->d[i] != b->d[i]) eq = 0; }
+  return eq;
+}
+static inline struct svec spec_split(const vstr* s, _Bool* well_formed) {
+  struct svec out; out.n = 0; size_t i = 0; *well_formed = 1;
+  for (size_t it = 0; it <= VSTR_CAP; it++) {
+    if (i < s->n) {
+      if (s->d[i] == ' ') { i = i + 1; }
+      else {
+        vstr a = vstr_new(); size_t end = s->n; _Bool found = 0;
+        if (s->d[i] == '"' || s->d[i] == '\'') {
+          char q = s->d[i];
+          for (size_t k = 0; k < VSTR_CAP; k++) { if (!found && k > i && k < s->n && s->d[k] == q && (k + 1 == s->n || s->d[k + 1] == ' ')) { found = 1; end = k; } }
+          if (!found) *well_formed = 0;      /* unterminated quote: not specified */
+          for (size_t k = 0; k < VSTR_CAP; k++) { if (k > i && k < end) { a.d[a.n] = s->d[k]; a.n = a.n + 1; } }
+          i = end + 1;
+        } else {
+          for (size_t k = 0; k < VSTR_CAP; k++) { if (!found && k > i && k < s->n && s->d[k] == ' ') { found = 1; end = k; } }
+          for (size_t k = 0; k < VSTR_CAP; k++) { if (k >= i && k < end) { a.d[a.n] = s->d[k]; a.n = a.n + 1; } }
+          i = end;
+        }
+        if (out.n < ACAP) { out.e[out.n] = a; out.n = out.n + 1; }
+      }
+    }
+  }
+  return out;
+}
+void h_split_tcp(void) {
+  struct Request rq; vstr line = nondet_vstr(); struct svec args; args.n = 0;
+  __CPROVER_assume(vstr_valid(&line));
+  for (size_t k = 0; k <= VSTR_CAP; k++) { if (k < line.n) __CPROVER_assume(line.d[k] != '\n' && line.d[k] != '\r' && line.d[k] != 0); else __CPROVER_assume(line.d[k] == 0); }
+  rq.m_request = line; rq.m_isHttp = 0; rq.m_listening = 0;
+  _Bool wf; struct svec expect = spec_split(&line, &wf);
+  __CPROVER_assume(wf);
+  Request_split(&rq, &args);
+  __CPROVER_assert(args.n == expect.n, "[C18] a command line is split into the arguments the client wrote (count: blanks outside quotes separate once, quoted tokens are one argument)");
+  size_t w = nondet_size(); __CPROVER_assume(w < ACAP);
+  if (w < expect.n && w < args.n) { __CPROVER_assert(vstr_same(&args.e[w], &expect.e[w]), "[C18] a command line is split into the arguments the client wrote (content of every argument, quotes removed, blanks inside quotes kept)"); }
+  if (expect.n >= 2 && expect.e[1].n >= 3 && line.d[0] != '"' ) { CANARY("two arguments"); }
+  if (expect.n == 1 && line.n >= 6 && line.d[0] == '"' && line.d[2] == ' ' && line.d[3] == ' ') { CANARY("quoted argument with two blanks"); }
 }
